@@ -22,6 +22,19 @@ CHECKS = {
              "the object (defined under C07); A-FRESH for 'not created in the same block'; sets of transactions keyed by "
              "id (A-KEY); the executor's model of Python (DESIGN section 4).",
         technique=PROOF_TECH),
+    'C04': dict(
+        category='proof', design_ref='6/C04',
+        text="The whole view of the state returned by CoinState.add_block_no_validation (blocks, unspent sets, by-height "
+             "index, tips, head) is proved from source, with the head rule taken from the statement (first block, child "
+             "of the head, or strictly greater height). Lemma C04.fork-choice proves that the representation invariant "
+             "- head = earliest-arrived stored block of greatest height (ghost arrival index), tips = stored blocks "
+             "without stored child (ghost child witness), by-height index at k = heights 0..height(k) with k on top and "
+             "the parent's index below - holds for the empty state and is preserved by every arrival whose parent is "
+             "already stored. Holds for every tree and arrival order by induction over arrivals (base and step are the "
+             "machine-checked part).",
+        note="Assumed: immutables.Map is a persistent finite map (A-IMMUT); block ids are functions of the block and "
+             "never the all-zero string; the induction principle over arrival sequences.",
+        technique=PROOF_TECH + "; representation invariant with ghost state, proved pointwise"),
     'C05': dict(
         category='proof', design_ref='6/C05',
         text="Proved from source for all inputs: proof of work is the numeric comparison id < target (for 32-byte "
